@@ -1,6 +1,7 @@
 import Hive.Base.Proto
 import Hive.Model.ReactiveInst
 import Hive.Model.ReactiveVariantsSeq
+import Hive.Model.ReactiveElementsSeq
 import Hive.Model.ReactiveDir
 /-!
 # Sequential reading of the reactive model and the line protocol of `drv_c13`
@@ -33,6 +34,7 @@ structure St where
   ref : Option (List Mut) := none   -- stress: the notes of the set's reference subscription (`sref` line)
   vx : Option VX.St := none         -- a `newvarx` case: variable with subscribers of every variant
   dir : Option Dir.St := none       -- a `newdir` case: the protocol model under a director (Hive/Model/ReactiveDir.lean)
+  sx : Option SX.St := none         -- a `newsetx` case: set with `WithElements` subscribers (Hive/Model/ReactiveElementsSeq.lean)
 
 def init : St := {}
 
@@ -225,6 +227,35 @@ def judgeCtx (act fin : String) (evs : List String) : String :=
     else "accept"
   | _, _, _ => "bad-op"
 
+def parseWeEv (tok : String) : Option WeEv :=
+  match tok.splitOn ":" with
+  | ["s", x] => x.toNat?.map .setup
+  | ["t", x] => x.toNat?.map .teardown
+  | _ => none
+
+/-- `esub <active|unsubbed> <final> <cond> <hasTd> ev…`: a `WithElements` subscription of a stress round: the
+trace is accepted by the scanner of `Hive/Spec/ReactiveElements.lean` (no second setup of an element before its
+teardown, no teardown without a pending setup), every setup satisfies the condition, after the returned
+teardown function nothing is left set up and nothing happens any more, and a subscription that is still
+active at quiescence is set up for exactly the matching elements of the final contents
+(`C13_withelements_in_protocol`). -/
+def judgeWe (act fin c h : String) (evs : List String) : String :=
+  let (pre, hasU, post) := splitAtU evs
+  match parseActive act, parseSet fin, c.toNat?, h.toNat?, pre.mapM parseWeEv with
+  | some a, some f, some c, some h, some tr =>
+    if !post.isEmpty then "reject after-unsubscribe"
+    else if !weOk (SX.hasTd h) tr then "reject withelements-order"
+    else if !(weSetups tr).all (SX.cond c) then "reject withelements-condition"
+    else if hasU then (if weClosed (SX.hasTd h) tr then "accept" else "reject withelements-not-closed")
+    else if a then
+      match tr.foldl (weScan (SX.hasTd h)) (some []) with
+      | some actv =>
+        if sameSet actv (f.filter (fun x => SX.cond c x && SX.hasTd h x)) then "accept"
+        else "reject withelements-not-the-contents"
+      | none => "reject withelements-order"
+    else "accept"
+  | _, _, _, _, _ => "bad-op"
+
 /-! ### the driver step -/
 
 def stepLine0 (st : St) (toks : List String) : St × String :=
@@ -238,6 +269,7 @@ def stepLine0 (st : St) (toks : List String) : St × String :=
   | "osub" :: act :: _ :: cond :: g1 :: evs => (st, judgeOnce st act cond g1 evs)
   | "wsub" :: act :: fin :: cond :: evs => (st, judgeWv st act fin cond evs)
   | "csub" :: act :: fin :: evs => (st, judgeCtx act fin evs)
+  | "esub" :: act :: fin :: c :: h :: evs => (st, judgeWe act fin c h evs)
   | "rread" :: vs =>
     match vs.mapM (·.toNat?) with
     | some rs => (st, if readsOk st.hist rs then "accept" else "reject read-not-in-history-order")
@@ -329,7 +361,7 @@ def stepLine0 (st : St) (toks : List String) : St × String :=
     | .event, ["ontrigger"] => subscribe st false
     | _, _ => (st, "bad-op")
 
-def stepLine (st : St) (toks : List String) : St × String :=
+def stepLine1 (st : St) (toks : List String) : St × String :=
   match toks, st.vx, st.dir with
   | ["newvarx"], _, _ => ({ vx := some {} }, "ok")
   | "newdir" :: kind, _, _ =>
@@ -341,5 +373,14 @@ def stepLine (st : St) (toks : List String) : St × String :=
     if toks.head? == some "vsub" || toks.head? == some "ssub" then stepLine0 st toks   -- the logs, judged by the trace predicates too
     else let r := d.stepLine toks; ({ st with dir := some r.1 }, r.2)
   | _, none, none => stepLine0 st toks
+
+def stepLine (st : St) (toks : List String) : St × String :=
+  match toks, st.sx with
+  | ["newsetx", els], _ =>
+    match parseSet els with
+    | some l => ({ sx := some { contents := l } }, "ok")
+    | none => (st, "bad-op")
+  | _, some x => let r := SX.stepLine x toks; ({ st with sx := some r.1 }, r.2)
+  | _, none => stepLine1 st toks
 
 end Hive.Reactive.Seq
